@@ -273,7 +273,7 @@ class DynamicObject:
             float: The heading (radian)
         """
         if self.frame_id == FrameID.BASE_LINK:
-            rots: float = self.state.orientation.radians
+            rots, _, _ = self.state.orientation.yaw_pitch_roll
         else:
             if transforms is None:
                 raise ValueError("transforms must be specified.")
